@@ -25,8 +25,9 @@ RULE = (
 TOLERANCES = {"float64_rel": 1e-11, "float32_rel": 1e-5}
 ASSUMPTIONS = [
     "mpmath at 50 digits is exact enough to serve as ground truth for 1e-11",
-    "float32 cases whose stored inputs, squares or result leave [1e-18, 1e18] are generated but "
-    "not compared (intermediate overflow in single precision is not part of the property)",
+    "float32 cases are generated but not compared when a stored operand or the result is not a normal "
+    "float32 ([1e-36, 1e36]) or when an operand the formulas square (tof, Ltotal, wavelength) leaves "
+    "[1e-18, 1e18] (intermediate overflow in single precision is not part of the property)",
 ]
 
 TOL = {"float64": mp.mpf("1e-11"), "float32": mp.mpf("1e-5")}
@@ -217,7 +218,7 @@ def compare(got, dims, ref_si, out_unit, dtype, tol, what):
     factor = _out_factor(out_unit)
     for idx in np.ndindex(*ref_si.shape) if ref_si.shape else [()]:
         r = ref_si[idx] / factor
-        if dtype == "float32" and not in_f32_range(r):
+        if dtype == "float32" and not in_f32_normal(r):
             continue
         gv = float(g[idx])
         if not math.isfinite(gv):
@@ -242,12 +243,24 @@ def _out_factor(unit: str):
     raise KeyError(unit)
 
 
+def in_f32_normal(x) -> bool:
+    ax = abs(x)
+    return ax == 0 or (mp.mpf("1e-36") <= ax <= mp.mpf("1e36"))
+
+
+SQUARED = ("tof", "Ltotal", "wavelength")  # operands the closed forms square
+
+
 def f32_inputs_ok(case) -> bool:
+    """Single-precision cases are compared only if every stored operand is a normal float32 and the
+    operands that the formulas square have squares in range too (energies, Q and angles are never
+    squared: an energy of 1e-22 J is a perfectly good float32)."""
     if case["dtype"] != "float32":
         return True
-    for op in case["ops"].values():
+    for name, op in case["ops"].items():
         for v in op["values"]:
-            if not in_f32_range(mp.mpf(v)) or not in_f32_range(mp.mpf(v) ** 2):
+            x = mp.mpf(v)
+            if not in_f32_normal(x) or (name in SQUARED and not in_f32_range(x)):
                 return False
     return True
 
@@ -331,7 +344,7 @@ def check_routes(case):
         # only compare when everything stayed inside the single-precision range
         for v in (lam, E_t, E_l, d_t, d_l, d_e, Q):
             a = np.abs(np.asarray(v.values, dtype=np.float64))
-            if not np.all(np.isfinite(a)) or np.any(a < 1e-18) or np.any(a > 1e18):
+            if not np.all(np.isfinite(a)) or np.any(a < 1e-36) or np.any(a > 1e36):
                 return [*labs, "f32-result-range-skip"], False
     tol = 3 * float(TOL[dtype])
     pairs = {
@@ -406,7 +419,7 @@ def check_roundtrip(case):
     if dtype == "float32":
         for z in (mid, back):
             a = np.abs(np.asarray(z.values, dtype=np.float64))
-            if not np.all(np.isfinite(a)) or np.any(a < 1e-18) or np.any(a > 1e18):
+            if not np.all(np.isfinite(a)) or np.any(a < 1e-36) or np.any(a > 1e36):
                 return [*labs, "f32-result-range-skip"], False
     if str(back.dtype) != dtype:
         raise Violation("dtype", f"{which}: dtype {back.dtype} after round trip, expected {dtype}")
